@@ -85,9 +85,9 @@ def keyI (cl : List Nat → List (List Nat)) (tf : TextFieldCl.TF Nat) (ev : Tex
 
 /-- textinput's `Update` / `SetContent` through the translated bodies, over merging graphemes … -/
 def tiUpdI (cl : List Nat → List (List Nat)) (isW : List Nat → Bool) (m : TextInputCl.TIC Nat) (ev : TextInputCl.Ev Nat) :
-    Option (TextInputCl.TIC Nat) := EdRun.tiUpdate EdGen.genTi cl isW m ev
+    Option (TextInputCl.TIC Nat) := EdRun.tiRunUpdate EdGen.genTi cl isW m ev
 def tiSetI (cl : List Nat → List (List Nat)) (isW : List Nat → Bool) (m : TextInputCl.TIC Nat) (t : List Nat) :
-    Option (TextInputCl.TIC Nat) := EdRun.tiSetContent EdGen.genTi cl isW m t
+    Option (TextInputCl.TIC Nat) := EdRun.tiRunSetContent EdGen.genTi cl isW m t
 
 /-- … and over graphemes that never merge (kind `ti`: one atom per grapheme). -/
 def tiToCl (m : TextInput.TI Nat) : TextInputCl.TIC Nat := ⟨m.content.map ([·]), m.cursor, m.offset, m.paste⟩
